@@ -110,4 +110,3 @@ func cmdVerify(args []string) int {
 	}
 	return 0
 }
-
